@@ -2,8 +2,8 @@
 //! GROUP: mutex
 //! MODULE: sync::mutex::kani_verif
 //! TAGS: C01 C02 C03 C04 C17 C18
-//! N: quick=2 thorough=2
-//! UNWIND_EXTRA: 4
+//! N: quick=4 thorough=4
+//! UNWIND_EXTRA: 3
 //! KIND: harness (concrete queue shape and fairness, symbolic remaining state)
 //! BOUNDED: N lock futures; every queue shape enumerated
 //! From EVERY pre-state that satisfies the unit's representation invariant with N lock futures (every queue order,
